@@ -5,7 +5,7 @@ use crate::prelude::*;
 
 fn heap() -> Heap {
     unsafe {
-        LOG = GhostLog { ev: [None; 16], n: 0 };
+        LOG = GhostLog { ev: [None; 24], n: 0 };
         FILL_I = 0;
         MARK_ROOT_VALUE = None;
         MARK_ROOT_VECTOR = [None; 4];
@@ -67,6 +67,10 @@ unsafe fn check_mark_protocol(h: &Heap, id: u8) {
         // the caller's root sets reached the marker
         assert!(MARK_ROOTS_LEN == 2 && MARK_GLOBALS_LEN == 1 && MARK_TLS_LEN == 3);
     }
+    // whether list `id` is collected is decided by its OWN fill level: a vector heap that fills up must be
+    // collected even if the box heap is almost empty (and the other way round)
+    assert!(LOG.count(Ev::Fill(1 - id)) == 0, "the collection of one heap is triggered by the fill level of the other");
+    assert!(LOG.count(Ev::Fill(id)) == 1);
     // exactly one allocation, last
     assert!(LOG.count(Ev::Alloc(id)) == 1 && LOG.pos(Ev::Alloc(id)) == Some(LOG.n - 1));
 }
